@@ -53,6 +53,11 @@ def main(argv):
         import time as _t
 
         chx.WITNESS = witness
+        if os.environ.get("VERIF_Z3_PARAMS"):
+            import z3 as _z3
+            for kv in os.environ["VERIF_Z3_PARAMS"].split(","):
+                k, v = kv.split("=")
+                _z3.set_param(k, int(v) if v.isdigit() else (v == "true" if v in ("true", "false") else v))
         mod = importlib.import_module(modname)
         fn = getattr(mod, fnname)
 
@@ -148,7 +153,15 @@ def main(argv):
                 r = fn(**cex["args"])
                 out["replay"] = {"returned": repr(r), "reproduced": (r is False)}
             except Exception as e:
-                out["replay"] = {"raised": repr(e), "reproduced": True, "tb": traceback.format_exc()[-1500:]}
+                # an exception escaping the harness counts as a violation only if it was raised inside the library
+                # (innermost frame under the repository); raised in /verif code it is a harness bug -> error
+                tb = e.__traceback__
+                while tb.tb_next is not None:
+                    tb = tb.tb_next
+                inner = tb.tb_frame.f_code.co_filename
+                in_lib = os.path.realpath(inner).startswith(os.path.realpath(os.environ.get("VERIF_REPO", "/repo")) + os.sep)
+                out["replay"] = {"raised": repr(e), "reproduced": in_lib, "raised_in": inner,
+                                 "tb": traceback.format_exc()[-1500:]}
     except BaseException as e:  # noqa
         out["state"] = "error"
         out["error"] = repr(e)
